@@ -146,6 +146,14 @@ fn rejected_inputs(spec: &CoreSpec, f: &F, view: &View) -> Vec<(usize, Ev, Res)>
     }
     // 13 change to the same identity
     v.push((13, Ev::ChangeId(me), Res::Err(ErrKind::SameIdentity)));
+    // ... and to an EQUAL identity that differs in a field equality ignores
+    // (here: whether and how it can renew itself): nothing of the rejected
+    // value may be kept
+    for pol in [Renew::None, Renew::Next, Renew::Same] {
+        if pol != me.pol {
+            v.push((13, Ev::ChangeId(me.with(pol)), Res::Err(ErrKind::SameIdentity)));
+        }
+    }
     // 14 the five forbidden configuration changes
     let mut bads = vec![Cfg { probe_period: cfg.probe_period + 1, ..cfg.clone() }, Cfg { probe_rtt: cfg.probe_rtt + 1, ..cfg.clone() }];
     if cfg.announce.is_none() {
